@@ -70,6 +70,8 @@ def enc_grid(g):
 
 
 def enc_jsheet(content):
+    if isinstance(content, dict):       # the object form {"headers": [...], "rows": [[...], ...]}
+        return "(2 " + enc_list([enc_str(c) for c in content["headers"]]) + " " + enc_rows(content["rows"]) + ")"
     if content and isinstance(content[0], list):
         return "(1 " + enc_rows(content) + ")"
     return "(0 " + enc_list([enc_list(["(" + enc_str(k) + " " + enc_str(v) + ")" for k, v in d.items()]) for d in content]) + ")"
@@ -77,9 +79,18 @@ def enc_jsheet(content):
 
 def dec_jsheet(s):
     x = parse_sexp(s)
+    if x[0] == 2:
+        return {"headers": [dec_str(c) for c in x[1]], "rows": dec_rows(x[2])}
     if x[0] == 1:
         return dec_rows(x[1])
     return [[(dec_str(k), dec_str(v)) for k, v in d] for d in x[1]]
+
+
+def jsheet_view(content):
+    """parsed JSON of one sheet, comparable with dec_jsheet"""
+    if isinstance(content, dict):
+        return {"headers": list(content.get("headers")), "rows": [list(r) for r in content.get("rows")]}
+    return [list(d.items()) if isinstance(d, dict) else list(d) for d in content]
 
 
 # ------------------------------------------------------------------ implementation side
@@ -152,13 +163,41 @@ def unl(s):
     return s.replace("\r\n", "\n").replace("\r", "\n")
 
 
-def read_all_formats(wb, scratch, stray=None):
+def convert_format_book(wb):
+    """the workbook itself in `convert`'s file format, written without going through a reader (a file converted
+    earlier, or by another tool): a sheet is the list of its rows as objects keyed by the headers — the form every
+    version of `convert` writes for a sheet with rows; a sheet WITHOUT rows cannot be written that way with its
+    headers (that is finding "sheet without rows") and is written as `convert` itself writes it"""
+    from rpft import converters
+    from rpft.parsers import sheets
+    import tablib
+
+    class Held(sheets.AbstractSheetReader):
+        def __init__(self, sh):
+            self._sheets = sh
+
+    out = {}
+    for name, (h, rows) in wb.items():
+        # (a file `convert` wrote never holds a CR: the CSV and XLSX readers it reads from newline-normalise)
+        h, rows = [unl(c) for c in h], [[unl(c) for c in r] for r in rows]
+        if rows:
+            out[name] = [dict(zip(h, r)) for r in rows]
+        else:
+            ds = tablib.Dataset()
+            ds.headers = list(h)
+            one = json.loads(converters.to_json(Held({name: sheets.Sheet(reader=None, name=name, table=ds)})))
+            out[name] = one["sheets"][name]
+    return {"meta": {"version": "0.1.0"}, "sheets": out}
+
+
+def read_all_formats(wb, scratch, stray=None, reuse=None):
     """Write wb in the three formats, read with the three real readers.
-    Returns dict fmt -> ('ok', {name: (headers, rows)}) | ('err', kind, msg), plus details."""
+    Returns dict fmt -> ('ok', {name: (headers, rows)}) | ('err', kind, msg), plus details.
+    reuse: a directory an earlier call wrote (its "dir"): the files are overwritten in place, the paths stay the same."""
     from rpft import converters
     from rpft.parsers import sheets
 
-    d = tempfile.mkdtemp(prefix="wb", dir=scratch)
+    d = reuse or tempfile.mkdtemp(prefix="wb", dir=scratch)
     csv_dir = os.path.join(d, "csv")
     write_csv_folder(wb, csv_dir)
     xlsx = os.path.join(d, "wb.xlsx")
@@ -182,6 +221,17 @@ def read_all_formats(wb, scratch, stray=None):
             out[key] = run_cli_mode(lambda: views(sheets.JSONSheetReader(p)))
         else:
             out[key] = r
+    # the workbook held in convert's format (not produced from one of the two files above)
+    r = run_cli_mode(convert_format_book, wb)
+    if r[0] == "ok":
+        p = os.path.join(d, "json_direct.json")
+        with open(p, "wb") as f:
+            f.write(bytes(json.dumps(r[1], ensure_ascii=False, indent=2), "utf-8"))
+        det["json_direct"] = p
+        det["json_direct_book"] = r[1]
+        out["json_direct"] = run_cli_mode(lambda: views(sheets.JSONSheetReader(p)))
+    else:
+        out["json_direct"] = r
     return out, det
 
 
@@ -219,7 +269,8 @@ def compile_all_formats(det):
 
     out = {}
     for key, fmt, p in (("csv", "csv", det["csv_dir"]), ("xlsx", "xlsx", det["xlsx"]),
-                        ("json", "json", det.get("json")), ("json_from_xlsx", "json", det.get("json_from_xlsx"))):
+                        ("json", "json", det.get("json")), ("json_from_xlsx", "json", det.get("json_from_xlsx")),
+                        ("json_direct", "json", det.get("json_direct"))):
         if p is None:
             out[key] = ("err", "convert-failed", "")
             continue
@@ -259,14 +310,25 @@ def without_empty_rows(wb, fill):
     return out
 
 
-def classify(wb, oracle_on):
+def deleted_empty_rows(wb):
+    return {n: (h, [r for r in rows if any(r)]) for n, (h, rows) in wb.items()}
+
+
+def classify(wb, oracle_on, outcome_of=None):
     """A failing workbook: which input class explains the failure?  Neutralise the feature and
-    re-run the oracle; the key is the (first) feature whose removal makes it pass."""
+    re-run the oracle; the key is the (first) feature whose removal makes it pass.
+    outcome_of(wb) = everything the formats returned: when DELETING the rows of empty cells changes nothing in it,
+    those rows are not what the formats disagree about (they are omitted everywhere) and the analysis goes on with
+    the workbook without them."""
     if has_empty_row(wb):
-        for fill in (False, True):
-            if oracle_on(without_empty_rows(wb, fill)):
-                return K_EMPTY_ROW
-        wb = without_empty_rows(wb, False)
+        bare = deleted_empty_rows(wb)
+        if outcome_of is not None and outcome_of(bare) == outcome_of(wb):
+            wb = bare
+        else:
+            for fill in (False, True):
+                if oracle_on(without_empty_rows(wb, fill)):
+                    return K_EMPTY_ROW
+            wb = without_empty_rows(wb, False)
     if has_no_rows(wb):
         for filler in ("x", None):
             w3 = {}
@@ -710,6 +772,105 @@ def _run(ctx, v, rng, m, thorough, scratch):
                      "headers ['a','a'], row ['x','y']", "(['a'], [['y']])", repr(table_view(tw)))
     stats["dict_cases"] = js_dist
 
+    # ============================================================ (a5) the toolkit's readers / convert, one sheet at a time
+    # (rows of empty cells in every position, sheets without rows, the object form {"headers", "rows"}: what the tree
+    #  at hand does with them is probed by the translator — Gen/Tables.v — and the model must follow)
+    from rpft import converters
+
+    class Held(sheets.AbstractSheetReader):
+        def __init__(self, sh):
+            self._sheets = sh
+
+    n_rd = (6000 if thorough else 600) * ctx.scale
+    rd_dist = {"csv_reader": 0, "to_json": 0, "json_reader": 0, "json_reader_err": 0, "tables_with_empty_rows": 0,
+               "tables_without_rows": 0, "object_form": 0}
+    rdir = os.path.join(scratch, "readers")
+    os.makedirs(rdir)
+    fixed = [(["a"], [[""]]), (["a"], []), (["a"], [["x"], [""]]), (["a", "b"], [["", ""], ["x", ""], ["", ""]]),
+             (["a", "b"], [["", ""]]), (["a", "b"], [])]
+    csv_cases, tj_cases, jr_cases = [], [], []
+    for k in range(n_rd):
+        if k < len(fixed):
+            h, rows = fixed[k]
+        else:
+            h, rows = rand_table(rng, cr=rng.random() < 0.15, empty_rows=rng.random() < 0.4, no_rows=rng.random() < 0.2)
+        if any(not any(r) for r in rows):
+            rd_dist["tables_with_empty_rows"] += 1
+        if not rows:
+            rd_dist["tables_without_rows"] += 1
+        csv_cases.append((h, rows))
+        hh = h if rng.random() < 0.95 else None
+        tj_cases.append((hh, rows))
+        # what JSONSheetReader may find in a file: the two forms `convert` writes, plus re-ordered / ragged objects,
+        # lists of lists, the object form with ragged rows
+        x = rng.random()
+        if x < 0.4:
+            content = [dict(zip(h, r)) for r in rows]
+        elif x < 0.75:
+            rr = [list(r) for r in rows]
+            if rr and rng.random() < 0.15:
+                rr[rng.randrange(len(rr))].append("extra")
+            content = {"headers": list(h), "rows": rr}
+            rd_dist["object_form"] += 1
+        elif x < 0.85:
+            content = [list(r) for r in rows]
+        else:
+            content = []
+            for r in rows:
+                items = list(zip(h, r))
+                rng.shuffle(items)
+                content.append(dict(items))
+        jr_cases.append(content)
+    outs_c = outs_t = outs_j = None
+    csv_texts = [py_csv_write([h] + rows) for (h, rows) in csv_cases]
+    if m:
+        outs_c = m.ask_many([f"(114 11 {enc_str(t)})" for t in csv_texts])
+        outs_t = m.ask_many([f"(114 12 {enc_table(h, rows)})" for (h, rows) in tj_cases])
+        outs_j = m.ask_many([f"(114 13 {enc_jsheet(c)})" for c in jr_cases])
+    for i in range(n_rd):
+        v.coverage["evaluations"] += 3
+        dd = os.path.join(rdir, f"d{i}")
+        os.makedirs(dd)
+        with open(os.path.join(dd, "s.csv"), "w", newline="", encoding="utf-8") as f:
+            f.write(csv_texts[i])
+        r = run_cli_mode(lambda: table_view(sheets.CSVSheetReader(dd).sheets["s"].table))
+        rd_dist["csv_reader"] += 1
+        if outs_c:
+            mo = dec_res(outs_c[i], dec_table)
+            if (mo if mo[0] == "ok" else ("err",)) != (("ok", r[1]) if r[0] == "ok" else ("err",)):
+                ctx.disagree("CSVSheetReader on one file", repr(csv_cases[i]), repr(mo), repr(r)[:300])
+        hh, rows = tj_cases[i]
+
+        def impl_to_json():
+            ds = tablib.Dataset()
+            if hh:
+                ds.headers = list(hh)
+            for row in rows:
+                ds.append(list(row))
+            return json.loads(converters.to_json(Held({"s": sheets.Sheet(reader=None, name="s", table=ds)})))["sheets"]["s"]
+
+        r = run_cli_mode(impl_to_json)
+        rd_dist["to_json"] += 1
+        if outs_t:
+            mo = dec_jsheet(outs_t[i])
+            if r[0] != "ok" or mo != jsheet_view(r[1]):
+                ctx.disagree("converters.to_json on one sheet", repr(tj_cases[i]), repr(mo), repr(r)[:300])
+        pj = os.path.join(dd, "b.json")
+        with open(pj, "w", encoding="utf-8") as f:
+            json.dump({"meta": {"version": "0.1.0"}, "sheets": {"s": jr_cases[i]}}, f, ensure_ascii=False)
+        r = run_cli_mode(lambda: table_view(sheets.JSONSheetReader(pj).sheets["s"].table))
+        rd_dist["json_reader" if r[0] == "ok" else "json_reader_err"] += 1
+        if outs_j:
+            mo = dec_res(outs_j[i], dec_table)
+            if (mo if mo[0] == "ok" else ("err",)) != (("ok", r[1]) if r[0] == "ok" else ("err",)):
+                ctx.disagree("JSONSheetReader on one sheet", repr(jr_cases[i]), repr(mo), repr(r)[:300])
+        if any(not any(row) for row in csv_cases[i][1]) or not csv_cases[i][1]:
+            nontrivial.add("rd%d" % i)
+        shutil.rmtree(dd, ignore_errors=True)
+    if m:
+        rd_dist["tree_flags[csv_drop,json_drop,json_table_form,to_json_table_form]"] = parse_sexp(m.ask("(114 14)"))
+    stats["reader_sheet_cases"] = rd_dist
+
     # ============================================================ (b1) the three real readers on the same workbook
     n_wb = (1500 if thorough else 120) * ctx.scale
     classes = ["domain"] * 14 + ["cr"] * 2 + ["empty_row"] * 2 + ["no_rows"] * 2
@@ -717,6 +878,7 @@ def _run(ctx, v, rng, m, thorough, scratch):
                "cells_needing_quotes": 0, "non_ascii_cells": 0, "multiline_cells": 0}
     # the two minimal witnesses of the refutation theorems, first
     directed = [("empty_row", {"s": (["a"], [[""]])}), ("no_rows", {"s": (["a"], [])}),
+                ("empty_row", {"s": (["a"], [["x"], [""]])}),       # the witness of C14_empty_row_witness
                 ("empty_row", {"s": (["a", "b"], [["x", ""], ["", ""], ["", "y"]])}),
                 ("domain", {"s": (["a"], [["x"]])})]
     n_fail = {K_EMPTY_ROW: 0, K_NO_ROWS: 0}
@@ -749,7 +911,7 @@ def _run(ctx, v, rng, m, thorough, scratch):
             grid = load_grid(det["xlsx"])
             for name, (h, rows) in wb.items():
                 text = open(os.path.join(det["csv_dir"], name + ".csv"), "rb").read().decode("utf-8")
-                mo = dec_res(m.ask(f"(114 4 {enc_str(text)})"), dec_table)
+                mo = dec_res(m.ask(f"(114 11 {enc_str(text)})"), dec_table)
                 im = ("ok", res["csv"][1][name]) if res["csv"][0] == "ok" else ("err",)
                 if (mo if mo[0] == "ok" else ("err",)) != im:
                     ctx.disagree("CSVSheetReader sheet", repr((name, h, rows)), repr(mo), repr(res["csv"]))
@@ -769,14 +931,20 @@ def _run(ctx, v, rng, m, thorough, scratch):
                     ch_, cr_ = res["csv"][1][name]
                     parsed = json.loads(det["json_text"])  # section hypothesis json_roundtrip: checked below
                     content = parsed["sheets"][name]
-                    mj = dec_jsheet(m.ask(f"(114 7 {enc_table(ch_, cr_)})"))
-                    ij = [list(d.items()) if isinstance(d, dict) else list(d) for d in content]
+                    mj = dec_jsheet(m.ask(f"(114 12 {enc_table(ch_, cr_)})"))
+                    ij = jsheet_view(content)
                     if mj != ij:
                         ctx.disagree("convert (to_json) sheet", repr((name, h, rows)), repr(mj), repr(ij))
                     if res["json"][0] == "ok":
-                        mf = dec_res(m.ask(f"(114 8 {enc_jsheet(content)})"), dec_table)
+                        mf = dec_res(m.ask(f"(114 13 {enc_jsheet(content)})"), dec_table)
                         if mf != ("ok", res["json"][1][name]):
                             ctx.disagree("JSONSheetReader sheet", repr((name, h, rows)), repr(mf), repr(res["json"][1][name]))
+                if res["json_direct"][0] == "ok" and "json_direct_book" in det:
+                    content = det["json_direct_book"]["sheets"][name]
+                    mf = dec_res(m.ask(f"(114 13 {enc_jsheet(content)})"), dec_table)
+                    if mf != ("ok", res["json_direct"][1][name]):
+                        ctx.disagree("JSONSheetReader sheet (workbook held in convert's format)", repr((name, h, rows)), repr(mf),
+                                     repr(res["json_direct"][1][name]))
         # ---- the property's oracle on the implementation
         # (class 'cr': the CSV and XLSX readers newline-normalise a CR, so "cells intact" is not asked;
         #  the three formats must still agree with each other and all succeed: theorem formats_agree_normalised)
@@ -791,15 +959,41 @@ def _run(ctx, v, rng, m, thorough, scratch):
                     ok = False
             if cls == "domain" and res["csv"][0] != "ok":
                 ok = False
+            # rows of empty cells / sheets without rows: whatever the formats agree on, it is the workbook itself, with
+            # or without its rows of empty cells — names, headers and every other row intact
+            if ok and cls in ("empty_row", "no_rows") and res["csv"][0] == "ok":
+                if res["csv"][1] not in ({n: (h, rows) for n, (h, rows) in wb.items()}, deleted_empty_rows(wb)):
+                    ok = False
             if not ok:
                 def oracle_on(w2):
                     r2, d2 = read_all_formats(w2, scratch, stray)
+                    shutil.rmtree(d2["dir"], ignore_errors=True)
                     return formats_oracle(r2) and r2["csv"][0] == "ok"
-                key = classify(wb, oracle_on)
+
+                def outcome_of(w2):
+                    # (without json_direct: a held file is written differently for a sheet with and without rows)
+                    r2, d2 = read_all_formats(w2, scratch, stray)
+                    shutil.rmtree(d2["dir"], ignore_errors=True)
+                    return {f: x for f, x in r2.items() if f != "json_direct"}
+                key = classify(wb, oracle_on, outcome_of)
                 if key in n_fail:
                     n_fail[key] += 1
                 summary = {f: (r[0], r[1] if r[0] == "ok" else r[1:]) for f, r in res.items()}
                 v.failing_input(key, f"readers disagree on {wb!r} (stray={stray!r}): {summary!r}"[:1500], dict(fn="readers", wb=wb, stray=stray))
+        # ---- the same paths, a revised workbook: the files are overwritten in place (same sheet names, other cells) and
+        # read again in this process; what is read must be the revised content, in every format
+        if cls == "domain" and rng.random() < 0.3:
+            wb_rev = {n: (h, [[(c + "~" + str(i)) if c else c for c in r] for i, r in enumerate(rows)]) for n, (h, rows) in wb.items()}
+            if wb_rev != wb:
+                wb_dist["revised_in_place"] = wb_dist.get("revised_in_place", 0) + 1
+                v.coverage["evaluations"] += 1
+                res2, det2 = read_all_formats(wb_rev, scratch, stray, reuse=det["dir"])
+                ok2 = formats_oracle(res2) and res2["csv"][0] == "ok" and res2["csv"][1] == {n: (h, rows) for n, (h, rows) in wb_rev.items()}
+                if not ok2:
+                    summary = {f: (r[0], r[1] if r[0] == "ok" else r[1:]) for f, r in res2.items()}
+                    v.failing_input("stale-read-after-revision",
+                                    f"a workbook overwritten in place ({wb!r} -> {wb_rev!r}, same paths) is not read as revised: {summary!r}"[:1500],
+                                    dict(fn="readers_revision", wb=wb, wb_rev=wb_rev, stray=stray))
         shutil.rmtree(det["dir"], ignore_errors=True)
     stats["reader_workbooks"] = wb_dist
     stats["reader_findings_seen"] = n_fail
@@ -836,7 +1030,13 @@ def _run(ctx, v, rng, m, thorough, scratch):
                 c2 = compile_all_formats(d2)
                 shutil.rmtree(d2["dir"], ignore_errors=True)
                 return compile_oracle(c2) and c2["csv"][0] == "ok"
-            key = classify(wb, oracle_on)
+
+            def outcome_of(w2):
+                r2, d2 = read_all_formats(w2, scratch)
+                c2 = compile_all_formats(d2)
+                shutil.rmtree(d2["dir"], ignore_errors=True)
+                return ({f: x for f, x in r2.items() if f != "json_direct"}, {f: x for f, x in c2.items() if f != "json_direct"})
+            key = classify(wb, oracle_on, outcome_of)
             if key in c_fail:
                 c_fail[key] += 1
             summary = {f: (r[0], "…" if r[0] == "ok" else r[1:]) for f, r in comp.items()}
@@ -862,7 +1062,10 @@ def _run(ctx, v, rng, m, thorough, scratch):
         "%r plus random rows (30%% with CR) byte-for-byte, and the round trip on the real module; load_csv on real files "
         "(70%% written tables incl. all-empty rows / header-only, 30%% mutated text: ragged, blank lines, stray quotes); "
         "_sanitize on grids with None cells / trailing None headers / short and long rows; Dataset.dict getter+setter incl. "
-        "duplicate headers and re-ordered dicts; then whole workbooks through the three real readers (70%% in the theorem's "
+        "duplicate headers and re-ordered dicts; CSVSheetReader / converters.to_json / JSONSheetReader one sheet at a time "
+        "(40%% of the tables with rows of empty cells, 20%% without rows; JSON sheets as lists of objects, in the object form "
+        "{headers, rows} incl. ragged rows, as lists of lists, re-ordered); then whole workbooks through the three real readers "
+        "and through JSONSheetReader on the workbook held in convert's own format (70%% in the theorem's "
         "domain, 10%% CR cells [correspondence + mutual agreement of the formats], 10%% all-empty rows, 10%% header-only sheets) and small valid rpft "
         "workbooks through create_flows in all formats (80%% valid, 20%% carrying one of the two defect features). "
         "non-trivial = distinct text with a quote or CR / rows with a cell needing quotes / grid where a row was dropped / "
@@ -925,6 +1128,14 @@ def replay(rep):
             for f, x in res.items():
                 print(" ", f, x)
             return formats_oracle(res) and res["csv"][0] == "ok"
+        if r["fn"] == "readers_revision":
+            stray = {n: tuple(x) for n, x in r["stray"].items()} if r.get("stray") else None
+            wb_rev = {n: (list(t[0]), [list(x) for x in t[1]]) for n, t in r["wb_rev"].items()}
+            res, det = read_all_formats(wb, scratch, stray)
+            res2, det2 = read_all_formats(wb_rev, scratch, stray, reuse=det["dir"])
+            for f, x in res2.items():
+                print(" ", f, x)
+            return formats_oracle(res2) and res2["csv"][0] == "ok" and res2["csv"][1] == {n: (h, rows) for n, (h, rows) in wb_rev.items()}
         if r["fn"] == "compile":
             res, det = read_all_formats(wb, scratch)
             comp = compile_all_formats(det)
